@@ -4,7 +4,30 @@ From Base Require Import Prelude Sx Json.
 From Gen Require Import Versions PercentSet.
 From Gen Require EndpointBodies.
 From C18 Require Serde SerdeBridge.
+From C08 Require Model.
+From C16 Require Query.
 From C16 Require Import Model Spec.
+
+(** [u64::from_str] / [i64::from_str] as modelled for C08's string power levels *)
+Definition rust_parse_int (signed : bool) (s : str) : option Z :=
+  if signed then C08.Model.parse_signed s else C08.Model.parse_unsigned s.
+
+Fixpoint find_query (ep : str) (l : list (str * Serde.ty)) : option (list (Serde.fmeta * Serde.ty)) :=
+  match l with
+  | [] => None
+  | (e, t) :: r => if str_eqb ep e then match t with Serde.TStruct fs => Some fs | _ => None end else find_query ep r
+  end.
+
+Definition sx_qpairs (l : list (str * str)) : sx := SL (List.map (fun kv => SL [SS (fst kv); SS (snd kv)]) l).
+
+Definition model_query (fs : list (Serde.fmeta * Serde.ty)) (q : list (str * str)) : sx :=
+  match Query.qdeser SerdeBridge.id_valid rust_parse_int fs q with
+  | Some vs => match Query.qser fs vs with
+               | Some out => SL [SN 0; sx_qpairs out]
+               | None => sx_bad
+               end
+  | None => SL [SN 1; SN 0]
+  end.
 
 (* ---- decoding ------------------------------------------------------------------------- *)
 Definition as_pair_NS (x : sx) : option (N * str) :=
@@ -203,6 +226,29 @@ Definition run (x : sx) : sx :=
                            | SL [SN 0; SS text] => SerdeBridge.reread_ok t j text
                            | SL [SN 1; SN 0] => true
                            | _ => false       (* accepted but not re-encodable, or a panic *)
+                           end)]
+          | _, _ => sx_bad
+          end
+      | 14%Z, [SS ep; q] =>
+          (* typed query string through the generated conversions and back *)
+          match as_list_of as_pair_SS q, find_query ep EndpointBodies.endpoint_queries with
+          | Some q, Some fs =>
+              SL [model_query fs q;
+                  sx_bool (match impl with
+                           | SL [SN 0; out] =>
+                               (* what came out reads back as the typed value the input read as *)
+                               match as_list_of as_pair_SS out with
+                               | Some out =>
+                                   match Query.qdeser SerdeBridge.id_valid rust_parse_int fs q,
+                                         Query.qdeser SerdeBridge.id_valid rust_parse_int fs out with
+                                   | Some a, Some b => Serde.val_eqb (Serde.VStruct a) (Serde.VStruct b)
+                                   | None, _ => true
+                                   | Some _, None => false
+                                   end
+                               | None => false
+                               end
+                           | SL [SN 1; SN 0] => true
+                           | _ => false
                            end)]
           | _, _ => sx_bad
           end
